@@ -191,15 +191,36 @@ func (e *Exec) evalBinary(x *ast.BinaryExpr, st *State, ctx *Ctx) string {
 			bt, ok := t.(*types.Basic)
 			return ok && bt.Kind() == types.UntypedNil
 		}
+		sliceNil := func(t types.Type, other ast.Expr) (string, bool) {
+			// nil-ness of a slice is not part of the model (nil and empty are the same sequence): a comparison with nil
+			// is an unknown boolean, except for values that are visibly fresh literals
+			if !(isTreeList(t) || isStringList(t) || isRefList(t)) {
+				return "", false
+			}
+			e.eval(other, st, ctx)
+			e.note("comparison of a slice with nil is an unknown boolean (nil and empty slices are the same sequence in the model)")
+			r := e.fresh(st, "sliceIsNil", "Bool")
+			if x.Op == token.EQL {
+				return r, true
+			}
+			return "(not " + r + ")", true
+		}
+		if isNil(ty) {
+			if r, ok := sliceNil(tx, x.X); ok {
+				return r
+			}
+		}
+		if isNil(tx) {
+			if r, ok := sliceNil(ty, x.Y); ok {
+				return r
+			}
+		}
 		switch {
 		case isNil(ty):
 			a = e.eval(x.X, st, ctx)
 			b = zeroOf(tx)
 			if isTreeMap(tx) {
 				b = "VNil"
-			}
-			if isTreeList(tx) {
-				e.note("nil slice and empty slice are not distinguished")
 			}
 		case isNil(tx):
 			b = e.eval(x.Y, st, ctx)
